@@ -139,3 +139,66 @@ def equivalent(e: ast.expr, reference, domain: list[dict[str, object]]):
         if got != want:
             return env, got, want
     return None
+
+
+# ------------------------------------------------------------------ statement-level evaluation
+class _Flow(Exception):
+    def __init__(self, kind):
+        self.kind = kind
+
+
+def run_stmts(stmts, env: dict, on_call=None, budget: int = 2000):
+    """Execute a small statement list over the integer/boolean environment ``env`` (mutated in place):
+    assignments to names, if/elif/else, pass, continue/break/return (reported by name), expression
+    statements that are calls (handed to ``on_call(text, call)``).  Anything else → PredUnsupported.
+    Returns 'fallthrough' | 'continue' | 'break' | 'return'."""
+    for st in stmts:
+        if isinstance(st, ast.Pass):
+            continue
+        if isinstance(st, ast.Expr):
+            if isinstance(st.value, ast.Constant):
+                continue
+            if isinstance(st.value, ast.Call):
+                if on_call is not None:
+                    on_call(norm(st.value.func), st.value)
+                continue
+            raise PredUnsupported(f"statement `{norm(st)[:60]}`")
+        if isinstance(st, (ast.Assign, ast.AnnAssign)):
+            if st.value is None:
+                continue
+            tg = st.targets if isinstance(st, ast.Assign) else [st.target]
+            try:
+                v = ev(st.value, env)
+            except PredUnsupported:
+                # an unmodelled right-hand side: the name becomes unknown (an error only if it is used)
+                for t in tg:
+                    if isinstance(t, ast.Name):
+                        env.pop(t.id, None)
+                continue
+            for t in tg:
+                if isinstance(t, (ast.Name, ast.Attribute)):
+                    env[norm(t)] = v
+                else:
+                    raise PredUnsupported(f"store `{norm(t)}`")
+            continue
+        if isinstance(st, ast.AugAssign) and isinstance(st.target, (ast.Name, ast.Attribute)):
+            cur = ev(st.target, env)
+            val = ev(st.value, env)
+            op = {ast.Add: lambda a, b: a + b, ast.Sub: lambda a, b: a - b, ast.Mult: lambda a, b: a * b}.get(type(st.op))
+            if op is None:
+                raise PredUnsupported(norm(st))
+            env[norm(st.target)] = op(cur, val)
+            continue
+        if isinstance(st, ast.If):
+            r = run_stmts(st.body if ev(st.test, env) else st.orelse, env, on_call)
+            if r != "fallthrough":
+                return r
+            continue
+        if isinstance(st, ast.Continue):
+            return "continue"
+        if isinstance(st, ast.Break):
+            return "break"
+        if isinstance(st, ast.Return):
+            return "return"
+        raise PredUnsupported(f"statement `{norm(st)[:60]}` is outside the predicate fragment")
+    return "fallthrough"
